@@ -290,6 +290,7 @@ class _ReadSourceGenerator:
 
         size = 0
         slice_index = 0
+        uses_data = False
         for field, count, _ in info:
             if field is None:
                 # Padding
@@ -309,11 +310,13 @@ class _ReadSourceGenerator:
                 else:
                     getter = f"data[{slice_index}:{slice_index + count}]"
                     slice_index += count
+                    uses_data = True
             elif issubclass(read_type, (Char, Wchar, Int)):
                 getter = f"buf[{size}:{size + read_type.size}]"
             else:
                 getter = f"data[{slice_index}]"
                 slice_index += 1
+                uses_data = True
 
             is_pointer = issubclass(field_type, Pointer) or (
                 issubclass(field_type, Array) and issubclass(field_type.type, Pointer)
@@ -361,8 +364,9 @@ class _ReadSourceGenerator:
             size += field_type.size
 
         fmt = _optimize_struct_fmt(info)
-        if fmt == "x" or (len(fmt) == 2 and fmt[0].isdigit() and fmt[1] == "x"):
-            # Only padding, nothing to unpack (a single value followed by one pad byte, e.g. "Bx", does need it)
+        if not uses_data and (fmt == "x" or (len(fmt) == 2 and fmt[0].isdigit() and fmt[1] == "x")):
+            # Only padding, nothing to unpack (a single value followed by one pad byte, e.g. "Bx", does need it,
+            # and so does an empty packed array, e.g. "uint8 x[0]", which still slices the unpacked data)
             unpack = ""
         else:
             unpack = f'data = _struct(cls.cs.endian, "{fmt}").unpack(buf)\n'
